@@ -705,19 +705,21 @@ func (cfg *Config) wordFields(wps []syntax.WordPart) ([][]fieldPart, error) {
 				s = rest
 			}
 			if strings.Contains(s, "\\") {
-				sb := cfg.strBuilder()
-				for i := 0; i < len(s); i++ {
-					b := s[i]
-					if b == '\\' {
-						if i++; i >= len(s) {
-							sb.WriteByte(b)
-							break
-						}
-						b = s[i]
+				// A backslash quotes the next byte: it is removed, and the
+				// byte becomes a quoted part so that \* is not a glob.
+				start := 0
+				for i := 0; i+1 < len(s); i++ {
+					if s[i] != '\\' {
+						continue
 					}
-					sb.WriteByte(b)
+					if i > start {
+						curField = append(curField, fieldPart{val: s[start:i]})
+					}
+					curField = append(curField, fieldPart{quote: quoteSingle, val: s[i+1 : i+2]})
+					i++
+					start = i + 1
 				}
-				s = sb.String()
+				s = s[start:]
 			}
 			curField = append(curField, fieldPart{val: s})
 		case *syntax.SglQuoted:
